@@ -99,6 +99,8 @@ func genCase(t *rapid.T) Case {
 		// two ids with the same 64-bit xxhash (routing hashes key+server, so their owners differ all the same;
 		// anything that remembers an owner per hash of the key would confuse them)
 		"alice00000000042", "Xjqaaaaayfo5aO0K"}
+	// (ids with an element that begins with a dot are ids like any other; they are kept in front of the twins)
+	users = append([]string{".alice", "team/.bots"}, users...)
 	nc := rapid.IntRange(1, 5).Draw(t, "ncols")
 	seen := map[string]bool{}
 	twins := rapid.IntRange(0, 5).Draw(t, "twins") == 0 // both ids of the colliding pair own a collection
